@@ -92,9 +92,15 @@ P["C07"] = dict(
     text="Coq theorems (coq/maxi/C07.v): max is the greatest cell, argmax designates an in-range cell holding it, threshold returns "
          "exactly the cells >= t without duplicates, None on empty matrices; each AVX2/SSE2 kernel and every dispatcher arm equals its "
          "specification; padding cells are -inf so the float maximum is the best valid score. Order facts discharged for binary32 "
-         "(Flocq) and u8. Tie: extracted model and checker vs implementation on generated f32/u8 matrices, all arms.",
-    note=COMMON_NOTE,
-    technique="Coq proof (total-preorder section instantiated for binary32/u8, lane-wise kernel models) + extracted-model correspondence check",
+         "(Flocq) and u8. Round 3: REUSED buffers - after every history of StripedScores::resize / DenseMatrix::resize (more or fewer rows) "
+         "and cell writes the default scans, offset and Index answer as on a fresh matrix of the logical rows, on every dispatcher arm "
+         "(C07_history_independent, C07_history_answers_meet_spec, C07_history_all_arms_f32/_u8; a grow-only resize is refuted). 62 theorems "
+         "(C07.v 52 + C07Source.v 10: dispatcher / pipeline tables, permute2x128 operands, lane offsets, the resize statements of dense.rs / "
+         "scores.rs, Iter::new, default-scan loops and the kernels' comparison predicates re-read from the source on every run by "
+         "translate/maxi_tables.py). Tie: extracted model and checker vs implementation on generated f32/u8 matrices (16/32/48/64 columns), all "
+         "arms, 30 % of the cases on a reused buffer with a 1-3 step history, Scanner-pattern range cases.",
+    note=COMMON_NOTE + "NEON kernels are not compiled on this host (the Arm dispatcher tables are translated and proved, never executed); score_rows_into steps inside a history are not modelled (rows rewritten afterwards).",
+    technique="Coq proof (total-preorder section instantiated for binary32/u8, lane-wise kernel models, buffer-history invariant) + translator of the dispatcher / lane / resize / comparison tables + extracted-model correspondence check incl. histories on one reused buffer",
     design="DESIGN.md section 3, C07")
 P["C08"] = dict(
     text="Coq theorems (coq/disc/C08.v): in exact arithmetic (extended rationals), for every matrix with finite non-wildcard cells, "
@@ -126,10 +132,15 @@ P["C10"] = dict(
 P["C11"] = dict(
     text="Coq theorems (coq/dist/C11.v) about the model of ScoreDistribution (dist.rs): the survival table is monotone and within [0,1], "
          "the tabulated pdf is the exact distribution of the discretised score (induction on rows), discretisation error bound, p-value "
-         "brackets of the exact tail, monotonicity, score/p-value round trip; refuted-lemmas with witnesses for the recorded known findings. "
-         "Tie: bit-exact binary64 model of the table vs implementation; exact tails by enumeration in the explorer.",
-    note=COMMON_NOTE + "Partial: exact-arithmetic theorems + bit-exact replay; rounding of the f64 convolution itself is modelled, not bounded.",
-    technique="Coq proof (induction on matrix rows over exact rationals) + bit-exact binary64 correspondence check",
+         "brackets of the exact tail, monotonicity, score/p-value round trip; refuted-lemma with witness for the recorded known finding (f32 unscale). "
+         "Round 3 (37 theorems): no word is lost (C11_no_word_lost: pvalue(s) >= weight(w) for every word w and s <= S(w) - d), max_score is the best "
+         "word and min_pvalue its mass (C11_max_score_is_best_word, C11_min_pvalue_is_best, C11_best_score_tail), monotonicity of scale and of the "
+         "p-values in binary64 ITSELF (Flocq: C11_scale_monotone_binary64, C11_pvalue_monotone_binary64), a second exact reference with one entry per "
+         "distinct score proved to give the same checker verdict (C11_grid_checker_eq, C11_red_checker_eq) so that long motifs (width <= 48) are "
+         "bracket-checked; CDF_RANGE and the statement skeleton of dist.rs re-read on every run (translate/dist_skel.py; C11_source_skeleton). "
+         "Tie: bit-exact binary64 model of the table, pvalue, score, scale, unscale vs implementation; exact tails by enumeration or on the score grid.",
+    note=COMMON_NOTE + "Partial: exact-arithmetic theorems + bit-exact replay; rounding of the f64 convolution itself is modelled, not bounded (checker tolerance 2^-30 relative). Known finding: f32 unscale inexact for narrow ranges on large offsets.",
+    technique="Coq proof (induction on matrix rows over exact rationals; Flocq binary64 for the monotonicity instances) + translated statement skeleton of dist.rs + bit-exact binary64 correspondence check with an extracted, proved-sound bracket checker",
     design="DESIGN.md section 3, C11")
 P["C12"] = dict(
     text="Coq theorems (coq/tfm/C12.v) about the model of TFM-PVALUE (lightmotif-tfmpvalue): integer-score error bound, the dynamic-programming "
